@@ -183,7 +183,7 @@ theorem copy_ok {w : Who} {t : T} (hl : ∀ a, t.last = some a → Own w t.nxt a
       by_cases h1 : k < t.nxt
       · exact .inl (own_addr h1)
       · by_cases h2 : k = t.nxt
-        · subst h2; exact .inr ⟨_, by simp, rfl⟩
+        · subst h2; exact .inr ⟨(w.addr t.nxt, Obj.graph ns es ga), by simp, rfl⟩
         · have : k = t.nxt + 1 := by omega
           subst this
           exact .inr ⟨(w.addr (t.nxt + 1), Obj.plan (w.addr t.nxt) []), by simp, rfl⟩
@@ -202,7 +202,7 @@ theorem stepV_ok {w : Who} {t : T} {h : Heap} (hj : J1 w t h) {i : Instr} (hi : 
     · split
       · next t' effs ap hc =>
         obtain ⟨hok, hap, _, htmp, hn, _⟩ := copy_ok hj.last hj.log hc
-        refine ⟨hok, hap, fun a ha => ?_⟩
+        refine ⟨⟨hok.nxt, hok.effs, hok.last, hok.log, hok.new⟩, hap, fun a ha => ?_⟩
         simp only at ha
         exact (hj.tmp a (htmp ▸ ha)).mono (by simp [hn])
       · exact ⟨triv, hj.cur, hj.tmp⟩
@@ -215,12 +215,12 @@ theorem stepV_ok {w : Who} {t : T} {h : Heap} (hj : J1 w t h) {i : Instr} (hi : 
     · split
       · next t' effs ap hc =>
         obtain ⟨hok, hap, hcur, _, hn, _⟩ := copy_ok hj.last hj.log hc
-        refine ⟨hok, ?_, fun a ha => ?_⟩
+        refine ⟨⟨hok.nxt, hok.effs, hok.last, hok.log, hok.new⟩, ?_, fun a ha => ?_⟩
         · simp only; rw [hcur]; exact hj.cur.mono (by simp [hn])
         · simp only [Option.some.injEq] at ha
           exact ha ▸ hap
       · exact ⟨triv, hj.cur, hj.tmp⟩
-  case mut onTmp m =>
+  case «mut» onTmp m =>
     simp only [Instr.tame] at hi
     simp only [stepV]
     split
